@@ -22,6 +22,7 @@ from .ctx import PathCtx, Stats
 from .interp import Interp, SourceDB
 
 MAX_PATHS = int(os.environ.get('PYVC_MAX_PATHS', '60000'))
+UNIT_BUDGET_S = float(os.environ.get('PYVC_UNIT_BUDGET_S', '3000'))
 VERIF_ROOT = os.path.dirname(os.path.dirname(os.path.abspath(__file__)))
 
 
@@ -214,6 +215,11 @@ def explore(pack_name, harness_name, label, params):
             if res.paths > MAX_PATHS:
                 res.undecided.append(f"path budget {MAX_PATHS} exceeded")
                 break
+            if time.time() - t_start > UNIT_BUDGET_S:
+                res.undecided.append(f"unit wall budget {UNIT_BUDGET_S}s exceeded after {res.paths - 1} paths")
+                break
+            if any(o['status'] == 'failed' for o in res.obl.values()):
+                break           # a counter-model is in hand; remaining paths are not needed for the verdict
             pctx = PathCtx(prefix, pending, res.stats)
             sym.set_ctx(pctx)
             interp.reset_path()
